@@ -12,7 +12,7 @@ Definition prefix {A} (a b : list A) : Prop := exists r, b = a ++ r.
 Definition slot (s : st) (i : Z) : option elem := read_elem s (live s) i.
 Definition op_index (o : op) : option Z :=
   match o with OEnsure i | OIndex i | OSnapGet i => Some i | _ => None end.
-Definition published (ti : tinfo) : Prop := match tst ti with TSpec _ => False | _ => True end.
+Definition published (ti : tinfo) : Prop := match tst ti with TSpec _ | TDead => False | _ => True end.
 
 (* memory-order obligations on the regenerated site tables: publication of a table / of a retire head is a
    release (acq_rel CAS), every read of _block_table and _head that is followed by a dereference is an acquire *)
@@ -157,7 +157,7 @@ Qed.
 
 (* what delete_list does to one table *)
 Definition freed_from (c : Z) (y y' : tinfo) : Prop :=
-  tblocks y' = tblocks y /\ tsup y' = tsup y /\ tst y' = TFreed /\
+  tblocks y' = tblocks y /\ tsup y' = tsup y /\ (tst y' = TFreed \/ (tst y' = TDead /\ exists u, tst y = TSpec u) \/ tst y' = tst y /\ tst y = TDead) /\
   (tfreed y' = tfreed y \/ (tfreed y = None /\ tfreed y' = Some c)).
 Lemma freed_from_one : forall c y k, freed_from c y (if Nat.eqb k 0 then set_tst y TFreed else free_tinfo y c).
 Proof.
